@@ -6,6 +6,9 @@ import I2N.Model.Pool
     root|<op>|<scopes>|<local 0|1>|<pool 0|1>|<valid bits>|<isVm 0|1>
         op ∈ check_root get_root set_root unset_root
 
+    chain|<images>|<isVm 0|1>|<state and its backing chain>|<differing files>      (compare_chain)
+    cmp|<cache path>|<pool path>                                                   (TransferOps.compare routing)
+
     answer: `<result> # <contacts>`; result = ok | ok:<sorted names> | true | false | valueError | noLocalState | invalidScope -/
 open I2N.Pool
 
@@ -79,6 +82,16 @@ def step (line : String) : String :=
     | "set_root" => let r := setRoot rw sc; answer (unitRes r.1) (r.2.map showRContact)
     | "unset_root" => let r := unsetRoot sc; answer (unitRes r.1) (r.2.map showRContact)
     | _ => "bad-op"
+  | ["chain", images, isVm, chain, differing] =>
+    let diff := words differing
+    let r := compareChain (words images) (isVm == "1") (fun f => !diff.contains f) (words chain)
+    answer (toString r.1) r.2
+  | ["cmp", cache, pool] =>
+    match compareRoute cache pool with
+    | .ok (.remote c p) => answer s!"remote {c} {p}" []
+    | .ok (.link c p) => answer s!"link {c} {p}" []
+    | .ok (.plain c p) => answer s!"local {c} {p}" []
+    | .error e => answer (showErr e) []
   | _ => "bad-op"
 
 partial def loop (h : IO.FS.Stream) (out : IO.FS.Stream) : IO Unit := do
